@@ -100,3 +100,25 @@ pub(crate) fn vclock_now() -> u64 {
 pub(crate) fn vclock_since(start: u64) -> std::time::Duration {
     std::time::Duration::from_nanos(vclock_now().saturating_sub(start))
 }
+
+// H5 : scheduling point in front of every access to the module-level INFINITY atomic.
+// A harness may install a per-thread callback (a controlled scheduler); inert otherwise.
+thread_local! {
+    #[allow(clippy::type_complexity)]
+    static SCHED_HOOK: std::cell::RefCell<Option<Box<dyn FnMut(&'static str)>>> = const { std::cell::RefCell::new(None) };
+}
+
+/// install (or clear) this thread's scheduling-point callback
+pub fn sched_hook_set(hook: Option<Box<dyn FnMut(&'static str)>>) {
+    SCHED_HOOK.with(|h| *h.borrow_mut() = hook);
+}
+
+pub(crate) fn sched_point(what: &'static str) {
+    SCHED_HOOK.with(|h| {
+        if let Ok(mut g) = h.try_borrow_mut() {
+            if let Some(f) = g.as_mut() {
+                f(what);
+            }
+        }
+    });
+}
